@@ -47,13 +47,13 @@ def gen_plan(rng, tier, index):
     plan = {'kind': kind, 'decorate': rng.subset(['unicode', 'naninf', 'matrix', 'nomeasure', 'floatdesc', 'emptystr', 'ragged', 'emptyarr', 'bigendian', 'nonestr', 'blanks'], 0.0, 0.8),
             'dec_seed': rng.randrange(10 ** 6), 'big': rng.chance(0.03)}
     if kind == 'rdms':
-        plan['family'] = gen_family(rng, n_cond=(2, 14) if rng.chance(0.4) else (2, 8), n_rdm=(1, 6))
+        plan['family'] = gen_family(rng, n_cond=(2, 14) if rng.chance(0.4) else (2, 8), n_rdm=(1, 6), mixed_ok=False)
         plan['pre_ops'] = c10.gen_ops(rng, rng.randint(0, 6), weights=[w for w in c10.WEIGHTS if w[0] not in ('to_df', 'size_recovery', 'array_write')])
     elif kind == 'data':
         plan['family'] = gen_data_family(rng)
         plan['pre_ops'] = c11.gen_ops(rng, rng.randint(0, 5), weights=[w for w in c11.WEIGHTS if w[0] not in ('array_write_ds', 'average_by', 'measurements_tensor', 'bin_time')])
     else:
-        plan['family'] = gen_family(rng, n_roots=(1, 1), n_cond=(4, 7), n_rdm=(1, 5) if rng.chance(0.3) else (3, 5))
+        plan['family'] = gen_family(rng, n_roots=(1, 1), n_cond=(4, 7), n_rdm=(1, 5) if rng.chance(0.3) else (3, 5), mixed_ok=False)
         plan['pre_ops'] = []
         plan['result'] = {'routine': rng.pick(['eval_fixed', 'eval_bootstrap_rdm', 'eval_bootstrap', 'crossval', 'bootstrap_crossval', 'eval_dual_bootstrap', 'eval_bootstrap_pattern']),
                           'models': [rng.pick(['fixed', 'weighted', 'select', 'interpolate']) for _ in range(rng.randint(1, 12 if rng.chance(0.06) else 3))],
